@@ -227,4 +227,100 @@ theorem C06_dsc_nonneg_squared_error (sf : SF K) (hk : sf.kind = .squaredError)
     (h : decompose sf fn lv ys cols w = .ok rows) : ∀ r ∈ rows, 0 ≤ r.dsc :=
   fun r hr => (C06_nonneg_squared_error sf hk he fn hfn lv ys cols w rows h r hr).2
 
+/-! ## 4. Zero components -/
+
+/-- **`dsc = 0` for constant forecasts** — every score object, every functional, with or without
+weights: if the smallest observation is an admissible prediction (the model's own flag
+`yminAllowed`, so that no domain repair takes place), a column whose forecasts are all equal gets
+discrimination exactly `0`.  Reason (`dec_recal_const_marginal`): all rows are tied in `X`, the
+sort puts their responses in non-increasing order, the (generalised) PAVA pools a non-increasing
+run into a single block, so the recalibrated forecast is the functional of the whole sample — the
+weighted mean, the weighted expectile, or the mid-quantile — which does not depend on the order of
+the observations and is exactly the marginal forecast behind `unc`. -/
+theorem C06_dsc_zero_of_constant (sf : SF K) (fn : Option (Option Functional)) (lv : Option K)
+    (ys : List K) (cols : List (List K)) (w : Option (List K)) (rows : List (DecompRow K))
+    (h : decompose sf fn lv ys cols w = .ok rows) (hallowed : dec_yminAllowed sf ys w = true)
+    (i : Nat) (hi : i < cols.length) (hr : i < rows.length)
+    (hc : ∀ a ∈ cols[i], ∀ b ∈ cols[i], a = b) : rows[i].dsc = 0 := by
+  obtain ⟨f, lv', marg, sm, hv, _, hm, hrows⟩ := (dec_ok_iff sf fn lv ys cols w rows).mp h
+  obtain ⟨hm1, hm2⟩ := dec_marginal_ok hm
+  exact dec_row_dsc_zero sf f lv' (dec_validate_ne_median hv) ys w hallowed marg sm hm1 hm2
+    cols[i] hc rows[i] (dec_mapM_get hrows i hi hr)
+
+/-- the recalibrated version of a constant forecast is the constant marginal forecast -/
+theorem C06_recal_of_constant (sf : SF K) (f : Functional) (lv : K) (hm : f ≠ .median)
+    (ys : List K) (w : Option (List K)) (hallowed : dec_yminAllowed sf ys w = true)
+    (x recal : List K) (hc : ∀ a ∈ x, ∀ b ∈ x, a = b)
+    (hrec : dec_recal sf f lv ys w x = .ok recal) (marg : K)
+    (hmarg : functionalVal f lv ys w = .ok marg) : recal = ys.map fun _ => marg := by
+  obtain ⟨tx, ty, hfit, rfl⟩ := dec_recal_ok_allowed hallowed hrec
+  exact dec_recal_const_marginal hm hfit hc hmarg
+
+/-- **`mcb = 0` when recalibration leaves the forecasts unchanged** (`recal = x`): every score
+object, every functional. -/
+theorem C06_mcb_zero_of_fixed (sf : SF K) (fn : Option (Option Functional)) (lv : Option K)
+    (ys : List K) (cols : List (List K)) (w : Option (List K)) (rows : List (DecompRow K))
+    (h : decompose sf fn lv ys cols w = .ok rows)
+    (f : Functional) (lv' : K) (hv : dec_validate sf fn lv = .ok (f, lv'))
+    (i : Nat) (hi : i < cols.length) (hr : i < rows.length)
+    (hfix : dec_recal sf f lv' ys w cols[i] = .ok cols[i]) : rows[i].mcb = 0 := by
+  obtain ⟨f', lv'', marg, sm, hv', _, hall⟩ := C06_rows sf fn lv ys cols w rows h
+  rw [hv] at hv'
+  cases hv'
+  obtain ⟨recal, s, sR, hrec, hs, hsR, he⟩ := hall.2.2 i hi hr
+  rw [hfix] at hrec
+  cases hrec
+  rw [hs] at hsR
+  rw [he, ← Except.ok.inj hsR]
+  exact sub_self s
+
+/-- **`mcb = 0` for isotonic-recalibrated forecasts** (generic form, the substantive part): in the
+setting of `C06_mcb_dsc_nonneg_abstract`, a forecast column that is itself the recalibration
+`X₀.map (interp tx₀ ty₀)` of some forecast `X₀` — the model fitted on `(X₀, y, w)` with the same
+functional and level, evaluated at `X₀` — has miscalibration `0`: recalibrating once more cannot
+lower the average score (`dec_recal_idem_total`). -/
+theorem C06_mcb_zero_of_recalibrated_abstract (sf : SF K) (fn : Option (Option Functional))
+    (lv : Option K) (ys : List K) (cols : List (List K)) (w : Option (List K))
+    (rows : List (DecompRow K)) (h : decompose sf fn lv ys cols w = .ok rows)
+    (f : Functional) (lv' : K) (hv : dec_validate sf fn lv = .ok (f, lv'))
+    (S : K → K → K) (dom : K → Prop)
+    (hS : ∀ y ∈ ys, ∀ z, dom z → sfPair sf y z = .ok (S y z))
+    (hopt : dec_FitOpt f lv' S dom ys) (hup : ∀ v, (∃ a ∈ ys, a ≤ v) → dom v)
+    (hallowed : dec_yminAllowed sf ys w = true)
+    (i : Nat) (hi : i < cols.length) (hr : i < rows.length)
+    (X₀ tx₀ ty₀ : List K) (h₀ : isoFit (some f) lv' true X₀ ys w = .ok (tx₀, ty₀))
+    (hx : cols[i] = X₀.map (interp tx₀ ty₀)) : rows[i].mcb = 0 := by
+  obtain ⟨f', lv'', marg, sm, hv', _, _, hrows⟩ := (dec_ok_iff sf fn lv ys cols w rows).mp h
+  rw [hv] at hv'
+  cases hv'
+  have hrow := dec_mapM_get hrows i hi hr
+  rw [hx] at hrow
+  exact dec_row_mcb_zero sf f lv' S dom ys w hS hopt hup hallowed sm X₀ tx₀ ty₀ h₀ rows[i] hrow
+
+/-- **Squared error: `mcb = 0` for recalibrated forecasts** -/
+theorem C06_mcb_zero_of_recalibrated_squared_error (sf : SF K) (hk : sf.kind = .squaredError)
+    (he : sf.elem = none) (fn : Option (Option Functional))
+    (hfn : fn = none ∨ fn = some (some .mean)) (lv : Option K) (ys : List K)
+    (cols : List (List K)) (w : Option (List K)) (rows : List (DecompRow K))
+    (h : decompose sf fn lv ys cols w = .ok rows)
+    (i : Nat) (hi : i < cols.length) (hr : i < rows.length)
+    (X₀ tx₀ ty₀ : List K) (l : K) (h₀ : isoFit (some .mean) l true X₀ ys w = .ok (tx₀, ty₀))
+    (hx : cols[i] = X₀.map (interp tx₀ ty₀)) : rows[i].mcb = 0 := by
+  obtain ⟨l', hv⟩ := dec_validate_sq sf hk he fn hfn lv
+  rw [dec_isoFit_mean_level l l'] at h₀
+  exact C06_mcb_zero_of_recalibrated_abstract sf fn lv ys cols w rows h .mean l' hv
+    (fun y z => (z - y) * (z - y)) (fun _ => True)
+    (fun y _ z _ => dec_sfPair_sq sf hk he y z) (dec_fitOpt_sq l' ys) (fun _ _ => trivial)
+    (dec_yminAllowed_of_ok sf ys w _ (dec_sfPair_sq sf hk he _ _)) i hi hr X₀ tx₀ ty₀ h₀ hx
+
+/-- **Squared error: `dsc = 0` for constant forecasts** (no proviso) -/
+theorem C06_dsc_zero_of_constant_squared_error (sf : SF K) (hk : sf.kind = .squaredError)
+    (he : sf.elem = none) (fn : Option (Option Functional)) (lv : Option K) (ys : List K)
+    (cols : List (List K)) (w : Option (List K)) (rows : List (DecompRow K))
+    (h : decompose sf fn lv ys cols w = .ok rows)
+    (i : Nat) (hi : i < cols.length) (hr : i < rows.length)
+    (hc : ∀ a ∈ cols[i], ∀ b ∈ cols[i], a = b) : rows[i].dsc = 0 :=
+  C06_dsc_zero_of_constant sf fn lv ys cols w rows h
+    (dec_yminAllowed_of_ok sf ys w _ (dec_sfPair_sq sf hk he _ _)) i hi hr hc
+
 end MD.Props
